@@ -329,8 +329,10 @@ class Ctx:
         ev = {"property_id": self.pid, "tier": self.tier, "seed": self.seed, "level": level,
               "coverage": cov, "assumptions": assumptions,
               "wall_s": round(time.time() - self.t0, 2), "violations": viol}
-        os.makedirs(os.path.join(VERIF, "evidence"), exist_ok=True)
-        with open(os.path.join(VERIF, "evidence", self.pid + ".json"), "w") as fh:
+        # a run against another checkout (VERIF_REPO: seeded changes) must not overwrite the evidence of /repo
+        evdir = os.path.join(VERIF, "evidence") if REPO == "/repo" else os.path.join(self.scratch, "evidence-other-checkout")
+        os.makedirs(evdir, exist_ok=True)
+        with open(os.path.join(evdir, self.pid + ".json"), "w") as fh:
             json.dump(ev, fh, indent=1, default=str)
         print("%s %s: states=%d transitions=%d traces=%d violations=%d known=%d wall=%.1fs" % (
             self.pid, self.tier, cov["states"], cov["transitions"], cov["traces_validated_against_impl"],
